@@ -175,7 +175,7 @@ def coq_case(c):
 def correspondence(ctx, nets):
     """nets: list of (spec, net, bp, np, numba) captured thermal pits"""
     cases, origin = [], []
-    n_var = 4 if ctx.quick else 8
+    n_var = 5 if ctx.quick else 8
     for spec, net, bp, npit, nb in nets:
         try:
             vs = int_variants(ctx, net, bp, npit, n_var)
@@ -415,7 +415,7 @@ def explore(ctx, n_nets, n_numba, with_corr=True):
         ctx.count("mode_" + mode)
         ctx.count("kind_" + spec.get("kind", "?"))
         ctx.count("numba_" + str(numba))
-        if cap and with_corr and len(captured) < (12 if ctx.quick else 120) and len(cap[0][0]) <= 40:
+        if cap and with_corr and len(captured) < (40 if ctx.quick else 200) and len(cap[0][0]) <= 40:
             captured.append((spec, net, cap[0][0], cap[0][1], numba))
         if r != "ok":
             continue
@@ -441,13 +441,13 @@ def run(ctx):
         except Exception as e:  # noqa: BLE001
             ctx.broken("translator", name, repr(e))
     proved = ctx.prove("C10")
-    n_nets, n_numba = (34, 5) if ctx.quick else (400, 120)
+    n_nets, n_numba = (56, 8) if ctx.quick else (400, 120)
     captured = explore(ctx, n_nets, n_numba)
     if captured:
         correspondence(ctx, captured)
     else:
         ctx.broken("correspondence", "no thermal pit could be captured", "")
-    if (not proved or ctx.brokens) and not ctx.violations and not ctx.known_hits:
+    if (not proved or ctx.brokens) and not ctx.violations:
         # failing-input search: a wider monitor sweep
         ctx.note("an obligation / correspondence broke: widening the monitor sweep")
         explore(ctx, 150, 10, with_corr=False)
